@@ -7,7 +7,9 @@ import (
 	"fmt"
 	"go/token"
 	"go/types"
+	"regexp"
 	"sort"
+	"strconv"
 	"strings"
 
 	"golang.org/x/tools/go/ssa"
@@ -290,6 +292,28 @@ func (w *World) ruleEcdsaScalarShape(rule string, gen *ssa.Function) {
 	if len(okms) == 0 {
 		w.undecided(rule, fnKey(gen)+"/okm", gen.Pos(), "unresolved anchor: HKDF output in the ECDSA key generation")
 		return
+	}
+	// the length asked of HKDF is a function of the curve alone: ceil(bits(N)/8) plus a constant of at least 128 bits —
+	// the documented key is the reduction of *that many* bytes; a length that also depends on the seed (its length, a
+	// maximum with it) yields another HKDF output prefix-wise equal but a different integer, hence a different key for
+	// the seeds that trigger it
+	for _, ds := range w.deepSites(gen, func(ins ssa.Instruction) bool {
+		c, ok := ins.(*ssa.Call)
+		return ok && c.Call.StaticCallee() != nil && strings.HasPrefix(c.Call.StaticCallee().String(), "crypto/hkdf.Key")
+	}, 3) {
+		c := ds.ins.(*ssa.Call)
+		if len(c.Call.Args) < 5 {
+			continue
+		}
+		lenArg := ds.render(c.Call.Args[4])
+		re := `^\(bitsToBytes\(` + regexp.QuoteMeta(P(gen, 0)) + `\.[\w.]*Params\(\)\.N\.BitLen\(\)\) \+ (\d+)\)$`
+		m := regexp.MustCompile(re).FindStringSubmatch(lenArg)
+		okLen := false
+		if m != nil {
+			k, _ := strconv.Atoi(m[1])
+			okLen = k*8 >= 128
+		}
+		w.check(okLen, rule, fnKey(gen)+"/okm-length", c.Pos(), "HKDF output length = ceil(bits(N)/8) + constant ≥ 16", "the HKDF output length is `"+lenArg+"`, not the curve-order size plus a constant of at least 128 bits: the derived key changes (or the reduction becomes biased) for the inputs on which the extra term matters")
 	}
 	recv := P(gen, 0)
 	for i, s := range sites {
